@@ -25,6 +25,15 @@ use std::time::{Duration, Instant};
 
 pub const VERIF_ROOT: &str = "/verif";
 
+/// root of the verification tree (known_findings.json, replays/, evidence/); `VERIF_ROOT` in the
+/// environment redirects it for isolated experiments (sensitivity runs against scratch copies)
+pub fn verif_root() -> PathBuf {
+    match std::env::var("VERIF_ROOT") {
+        Ok(r) if !r.is_empty() => PathBuf::from(r),
+        _ => PathBuf::from(VERIF_ROOT),
+    }
+}
+
 #[derive(Clone, Copy, Debug, PartialEq, Eq)]
 pub enum Tier {
     Quick,
@@ -197,7 +206,7 @@ pub struct KnownFinding {
 }
 
 pub fn load_known(property: &str) -> Vec<KnownFinding> {
-    let p = Path::new(VERIF_ROOT).join("known_findings.json");
+    let p = verif_root().join("known_findings.json");
     let txt = match std::fs::read_to_string(&p) {
         Ok(t) => t,
         Err(_) => return Vec::new(),
@@ -258,10 +267,10 @@ impl Plan {
 }
 
 fn replay_dir(id: &str) -> PathBuf {
-    Path::new(VERIF_ROOT).join("replays").join(id)
+    verif_root().join("replays").join(id)
 }
 fn scratch_dir(id: &str) -> PathBuf {
-    let d = Path::new(VERIF_ROOT).join("evidence").join(format!(".run-{}", id));
+    let d = verif_root().join("evidence").join(format!(".run-{}", id));
     let _ = std::fs::create_dir_all(&d);
     d
 }
@@ -1105,7 +1114,7 @@ fn run_parent<C: Check>(check: &C, cfg: &RunCfg, plan: &Plan) -> i32 {
     // 1. known findings: replay their reproducers (each in its own child)
     let mut open_sigs: Vec<String> = Vec::new();
     for (n, k) in known.iter().enumerate() {
-        let path = Path::new(VERIF_ROOT).join(&k.reproducer);
+        let path = verif_root().join(&k.reproducer);
         let case = match load_replay_case(&path) {
             Ok(x) => x.1,
             Err(e) => {
@@ -1386,7 +1395,7 @@ fn run_parent<C: Check>(check: &C, cfg: &RunCfg, plan: &Plan) -> i32 {
 
 pub fn write_evidence<C: Check>(check: &C, cfg: &RunCfg, stats: &Stats, violations: usize, wall: f64, plan: &Plan) {
     let id = check.id();
-    let dir = Path::new(VERIF_ROOT).join("evidence");
+    let dir = verif_root().join("evidence");
     let _ = std::fs::create_dir_all(&dir);
     let mut coverage = serde_json::Map::new();
     coverage.insert("evaluations".into(), json!(stats.evaluations));
@@ -1418,4 +1427,33 @@ pub fn write_evidence<C: Check>(check: &C, cfg: &RunCfg, stats: &Stats, violatio
     let tmp = dir.join(format!(".{}.json.tmp", id));
     let _ = std::fs::write(&tmp, serde_json::to_string_pretty(&doc).unwrap());
     let _ = std::fs::rename(&tmp, &path);
+}
+
+
+// ------------------------------------------------------------------------------------------------
+// coverage-guided fuzzing (cargo fuzz): the same generators and oracles, driven by libFuzzer's mutations
+// ------------------------------------------------------------------------------------------------
+
+/// One libFuzzer iteration: decode a case from `data`, evaluate it, and panic (= crash for libFuzzer) on a
+/// violation whose signature is not an open known finding. The replay file is written before panicking.
+pub fn fuzz_one<C: Check>(check: &C, data: &[u8]) {
+    static KNOWN: std::sync::OnceLock<Vec<String>> = std::sync::OnceLock::new();
+    crate::project::install_panic_hook();
+    let id = check.id();
+    let known = KNOWN.get_or_init(|| load_known(id).into_iter().filter(|k| k.status == "open").map(|k| k.signature).collect());
+    let mut u = Unstructured::new(data);
+    let case = match guarded(|| check.generate(&mut u, Tier::Thorough)) {
+        Ok(Some(c)) => c,
+        _ => return,
+    };
+    let mut labels = Labels::default();
+    if let Ok(Verdict::Violation { signature, detail }) = guarded(|| check.evaluate(&case, &mut labels)) {
+        if known.iter().any(|k| k == &signature) {
+            return;
+        }
+        let f = Found { signature: signature.clone(), detail, case_json: serde_json::to_value(&case).unwrap_or(Value::Null) };
+        let p = write_replay(id, &f, 0, Tier::Thorough, "found");
+        eprintln!("VIOLATION property={} replay={} signature={}", id, p.display(), signature);
+        std::process::abort();
+    }
 }
